@@ -834,6 +834,8 @@ class Harness:
         # roots an already decoded object may read when it is rendered: every hot root but the attribute-block cache (only
         # read by unpack, and rewritten by nearly every letter) and the API counter
         scalar_keys = [k for k in self.hot if k not in ATTR_CACHE_KEYS and k not in _NOT_CANON]
+        if os.environ.get('C19_OLD_FILTER'):
+            scalar_keys = [k for k in self.hot if isinstance(cp.values[k], _SCALARS) and k not in ATTR_CACHE_KEYS]
         ribs_before = rib_snapshot(w)
         # the objects the prefix returned, to depth 7 (Update -> UpdateCollection -> AttributeCollection -> dict -> Attribute -> fields)
         # (the session objects every message points at are not part of a message)
